@@ -209,6 +209,23 @@ CHECKS = {
    note=TB + 'Tensor columns reach the uniqueness model as order-isomorphic ranks; the projection_axis option is not modelled; drawing itself (matplotlib) is outside the model.',
    technique='Lean 4 proof (list induction, half-angle identities over the reals) + differential correspondence',
    design='5/C19'),
+ 'C15': dict(
+   text='Theorems for any number of events: the joint probability of a tuple is the product of the events\' own probabilities and, with '
+        'relative amplitudes, of one term per event pair in loop order (log form: sum; -inf absorbing; zero iff an event or used pair term is '
+        'zero); without relative data the events are independent (the joint value depends on the per-event values only); a pair sharing fewer '
+        'stations than the minimum, or none, contributes log 1, and if no pair reaches the minimum the relative inversion equals the '
+        'independent one. Station intersection: every pair joins observations of the same station, with one observation per station the pairs '
+        'are exactly the common stations, their number is the size of the intersection, and neither event\'s station order matters (equality '
+        '/ permutation). Scale factor over the reals: the fold of combine_mu is the inverse-variance-weighted mean with sd 1/sqrt(sum 1/s^2) '
+        'for any number of stations, permutation invariant, between the extreme station estimates and no more uncertain than any station; '
+        'the pair term (likelihood, scale, uncertainty) is station-order independent; each station estimate tends to mu_y r / mu_x as the '
+        'errors go to 0+ (Tendsto), its sd is eventually positive, and the combined scale converges to the true ratio k for any non-empty '
+        'consistent station list. Tie: MultipleEventsForwardTask (2..4 events, relative on/off, minimum 0..5, zero filtering on/off, '
+        'overlaps none/partial/full in independent orders) vs the executable model per tuple; oracle from single-event ForwardTask values '
+        'and the public relative_amplitude_ratio_ln_pdf on name-matched stations.',
+   note=TB + 'One location sample per event (shared location-sample sets of co-located events are not modelled); one relative-amplitude phase per case; each event\'s own log-probability enters the model as the value of the single-event forward task (C01). Errors of exactly zero are replaced by 1e-24 in the code and make the ratio density numerically meaningless (only the scale factor is compared there).',
+   technique='Lean 4 proof (list induction, permutation lemmas, fold invariant, filter limits) + differential correspondence',
+   design='5/C15'),
 }
 
 NOT_YET = 'check under construction in this session (model/theorems not yet committed)'
